@@ -12,7 +12,7 @@ from engine.symreal.core import qval
 from engine.vsym import build
 
 from . import pyh
-from .common import Part, Q, Report, approx_equal, finish, pmap, tier_timeout_ms, write_replay
+from .common import Part, Q, Report, approx_equal, finish, pmap, solve, tier_timeout_ms, write_replay
 from .cpph import CppFilter
 from .oblig import prove_equal, reach
 
@@ -113,20 +113,28 @@ def task(p, cse, ekf, tier, seed):
 
             return replay
 
-        def oblige(scenario, leaf, oname, spec_t, what, label):
+        def oblige(scenario, leaf, oname, spec_t, what, label, extra=()):
             if oname not in leaf.out:
                 part.harness_error(f"{key_base}: output {oname} missing in scenario {scenario}")
                 return
-            prove_equal(part, PID, f"{key_base}/{label}", leaf.out[oname], spec_t, assumes, tmo, replay=mk_replay(scenario, oname, what), key=f"{key_base}/{label}", info=dict(info, scenario=scenario, output=oname, what=list(what)), all_vars=allv)
+            prove_equal(part, PID, f"{key_base}/{label}", leaf.out[oname], spec_t, assumes + list(extra), tmo, replay=mk_replay(scenario, oname, what), key=f"{key_base}/{label}", info=dict(info, scenario=scenario, output=oname, what=list(what)), all_vars=allv)
 
         if not ekf:
             leaves, _ = cf.run("")
             part.leaves_n(len(leaves))
-            if len(leaves) != 1:
-                part.harness_error(f"{key_base}: model driver forked: {len(leaves)}")
+            if not leaves:
+                part.harness_error(f"{key_base}: model driver produced no leaf")
                 return part.d
-            for s in ss:
-                oblige("", leaves[0], f"f_{s}", f[s], ("f", s), f"Model::model[{s}]")
+            # switching functions (Piecewise ternaries) fork the generated code: every feasible path is an obligation
+            nfeas = 0
+            for li, leaf in enumerate(leaves):
+                if len(leaves) > 1 and solve(assumes + leaf.pc, 5000).status == "unsat":
+                    continue
+                nfeas += 1
+                for s in ss:
+                    oblige("", leaf, f"f_{s}", f[s], ("f", s), f"Model::model[{s}]" + (f"/path{leaf.decisions}" if len(leaves) > 1 else ""), extra=leaf.pc)
+            if nfeas == 0:
+                part.harness_error(f"{key_base}: no feasible path in the model driver")
             part.sample({"program": p.id, "mode": "model", "cse": cse, "f": {s: str(leaves[0].out[f"f_{s}"])[:120] for s in ss[:2]}})
             return part.d
 
@@ -218,6 +226,7 @@ def configs(tier, seed):
         out.append((CP.P1(), False, False))
         out.append((CP.P17(), True, True))
         out.append((CP.P11(), True, False))  # inverse-function compositions, Model mode
+        out.append((CP.P18(), True, False))  # Piecewise / Max / Min, Model mode (path per switch)
         return out
     progs = [CP.P1(), CP.P2(), CP.P7(), CP.P8()] + CP.presence_variants(CP.P3()) + CP.presence_variants(CP.P10())
     progs += [CP.P3().restrict(sensors=[]), CP.P3().restrict(sensors=["one"]), CP.P12(), CP.P17(), CP.P19(), CP.P20()]
@@ -229,6 +238,8 @@ def configs(tier, seed):
         out.append((p, True, False))
     out.append((CP.P11(), True, False))  # abs / inverse-function compositions: Model mode only (abs is not differentiable)
     out.append((CP.P11(), False, False))
+    out.append((CP.P18(), True, False))
+    out.append((CP.P18(), False, False))
     return out
 
 
